@@ -973,11 +973,12 @@ func (db *BadgerDB) DeleteRange(ctx storage.Context, kStart, kEnd storage.TKey) 
 	numKV := 0
 	for {
 		result := <-ch
+		if result.error != nil {
+			// An error arrives with a nil KeyValue, so it has to be checked before the end marker.
+			return result.error
+		}
 		if result.KeyValue == nil {
 			break
-		}
-		if result.error != nil {
-			return result.error
 		}
 
 		// The key coming down channel is not index but full key, so no need to construct key
